@@ -54,6 +54,7 @@ func runCut(b []byte, pre iosim.Schedule, cut *Cut, oc *Case, cov *Cov) cutRun {
 	clk := &core.Clock{}
 	sr := iosim.NewSimReader(b[:cut.K], cutSchedule(pre, cut), clk)
 	sr.FailErr = iosim.FailErrFor(cut.Err)
+	sr.ForgetFail = cut.Once
 	w := iosim.NewSimWriter(clk)
 	res := ScanOnce(sr, w, oc.Opts())
 	res.OffAfter = sr.Offset()
@@ -358,6 +359,7 @@ func checkC10Loop(c *Case, cov *Cov) []*Violation {
 	clk := &core.Clock{}
 	sr := iosim.NewSimReader(b[:c.Cut.K], cutSchedule(c.Sched, c.Cut), clk)
 	sr.FailErr = iosim.FailErrFor(c.Cut.Err)
+	sr.ForgetFail = c.Cut.Once
 	w := iosim.NewSimWriter(clk)
 	lr := ScanLoop(sr, w, c.Opts(), bytes.Count(b[:c.Cut.K], []byte("\n"))+3, nil)
 	if cov != nil {
@@ -473,7 +475,7 @@ func RunC10(r *core.Rng, run uint64, seed uint64, tier string, cov *Cov) []*Viol
 					if di == 1 && k%2 == 1 && len(b) > 1500 {
 						continue // chunked variant on every other offset for larger streams
 					}
-					c := &Case{Prop: "C10", Run: run, Seed: seed, Mode: "cut", Doc: doc, Sched: pre, Cut: &Cut{K: k, Kind: kind, With: with, Err: errKind(kind, k)}, NameArgs: nameArgs, Tree: tree}
+					c := &Case{Prop: "C10", Run: run, Seed: seed, Mode: "cut", Doc: doc, Sched: pre, Cut: &Cut{K: k, Kind: kind, With: with, Err: errKind(kind, k), Once: kind == "fail" && with && k%3 == 1}, NameArgs: nameArgs, Tree: tree}
 					cov.Evaluations++
 					if hasDump {
 						cov.Distinct[core.Hash([]byte(ih), []byte(fmt.Sprint(k, kind, with, di)))]++
